@@ -52,18 +52,22 @@ def judge_rejection(dep, rec, L, prop, probes):
     if E is None:
         probe("observation_lost:evaluated-rows")
         E = list(range(n_prior))
-    if A.randomize and A.path != "in_memory":
-        if A.perm is None:
-            v.append(Violation(prop, prop + ".shuffle", sig + ":randomize_prior_order-without-draw-from-sampler-generator", "no choice/permutation recorded on the sampler's generator"))
-        else:
-            perm = [int(x) for x in A.perm][: len(E)] if len(A.perm) >= len(E) else [int(x) for x in A.perm]
-            if sorted(set(int(x) for x in A.perm)) != sorted(int(x) for x in A.perm) or any(x < 0 or x >= N for x in A.perm):
-                v.append(Violation(prop, prop + ".shuffle", sig + ":shuffle-not-a-subset-without-repeats", "choice result %s" % list(A.perm)[:30]))
-            if A.seam_rows is not None and perm != list(E):
+    if A.randomize and A.perm is not None:
+        allp = [int(x) for x in A.perm]
+        perm = allp[: len(E)]
+        if len(set(allp)) != len(allp) or any(x < 0 or x >= N for x in allp):
+            v.append(Violation(prop, prop + ".shuffle", sig + ":shuffle-not-a-subset-without-repeats", "choice result %s" % allp[:30]))
+        elif A.seam_rows is not None and perm != list(E):
+            packed = L.packed(op.get("data", 0), op.get("lib", 0))
+            if len(perm) == len(E) and oracles.same_values(packed[perm], packed[list(E)]):
+                E = perm  # same values (duplicated library rows): the shuffle names the rows
+            else:
                 v.append(Violation(prop, prop + ".order", sig + ":evaluated-rows-differ-from-shuffled-order", "evaluated %s vs shuffle %s" % (list(E)[:20], perm[:20])))
-            probe("randomized_order")
-            if n_prior < N:
-                probe("n_prior_samples<N_with_shuffle")
+        probe("randomized_order")
+        if n_prior < N:
+            probe("n_prior_samples<N_with_shuffle")
+    elif A.randomize and A.path != "in_memory":
+        v.append(Violation(prop, prop + ".shuffle", sig + ":randomize_prior_order-without-draw-from-sampler-generator", "no choice/permutation recorded on the sampler's generator"))
     elif A.seam_rows is not None and list(E) != list(range(len(E))):
         v.append(Violation(prop, prop + ".order", sig + ":evaluated-rows-not-in-library-order", "evaluated %s" % list(E)[:20]))
     if len(E) != n_prior:
